@@ -262,9 +262,9 @@ Proof.
   intros src H. unfold lines_of_src. apply orb_true_iff in H. destruct H as [H|H]; apply N.eqb_eq in H; subst; auto.
 Qed.
 
-Lemma csv_cells_ok : forall c, wf c = true -> c_fmt c = FCsv -> spec_ok c (model_obs c) = true.
+Lemma csv_cells_ok : forall c, wf c = true -> c_fmt c = FCsv -> spec_ok c (format_obs c) = true.
 Proof.
-  intros c Hwf Hf. unfold spec_ok, model_obs. rewrite Hf.
+  intros c Hwf Hf. unfold spec_ok, format_obs. rewrite Hf.
   unfold wf in Hwf. rewrite Hf in Hwf. apply andb_true_iff in Hwf. destruct Hwf as [_ Ha].
   apply andb_true_iff in Ha. destruct Ha as [Ha Hsrc].
   destruct (c_ask c); [discriminate|].
@@ -334,9 +334,9 @@ Proof.
   rewrite csv_serialize_cells. reflexivity.
 Qed.
 
-Lemma csvp_ok : forall c, wf c = true -> c_fmt c = FCsvP -> spec_ok c (model_obs c) = true.
+Lemma csvp_ok : forall c, wf c = true -> c_fmt c = FCsvP -> spec_ok c (format_obs c) = true.
 Proof.
-  intros c Hwf Hf. unfold spec_ok, model_obs. rewrite Hf.
+  intros c Hwf Hf. unfold spec_ok, format_obs. rewrite Hf.
   unfold wf in Hwf. rewrite Hf in Hwf. apply andb_true_iff in Hwf. destruct Hwf as [Hwf Ha].
   apply andb_true_iff in Hwf. destruct Hwf as [Hnd _]. apply andb_true_iff in Hnd. destruct Hnd as [Hnd _].
   apply nodup_str_NoDup in Hnd.
